@@ -112,6 +112,10 @@ func runC11(c *vkit.Ctx, plain, trim *Program, foreign []string, absDir string, 
 		for k := 0; k < 1+r.IntN(3); k++ {
 			api := []string{"snap", "json", "yaml", "ssnap", "sjson"}[r.IntN(5)]
 			cl := Call{API: api, Dir: dirs[r.IntN(len(dirs))], Via: []string{"", "", "helper", "helper2", "subpkg", "closure", "goroutine", "direct-nontest", "direct-nontest", "direct-nontest-helper"}[r.IntN(10)]}
+			if r.IntN(8) == 0 {
+				// the call statement below 20-300 frames of a non-test file (recursive helpers)
+				cl.Via = fmt.Sprintf("deep-nontest-%d", []int{20, 29, 30, 31, 32, 33, 40, 64, 100, 128, 300}[r.IntN(11)])
+			}
 			if r.IntN(3) == 0 {
 				cl.File = "named"
 				if cl.Standalone() {
